@@ -532,8 +532,8 @@ inductive Defect where
   /-- KF-C06-5: a failed `WriteFile`/`Writer`/`Copy*` has journalled its destination whose `path.Dir` is not a
   directory of the direct tree: Commit creates it (or fails on it) -/
   | failedJournalled
-  /-- KF-C06-6: `Remove`/`RemoveAll` of a buffer directory below the root level whose parent is not on the
-  remote (or will be wiped there by a journalled recursive remove): the parent was only journalled through
+  /-- KF-C06-6: `Remove`/`RemoveAll` of a buffer directory below the root level whose parent is not a directory
+  on the remote (or will be wiped there by a journalled recursive remove): the parent was only journalled through
   the removed path -/
   | removeBufferDir
   /-- KF-C06-7: copy with overlapping arguments (never returns in Go) -/
@@ -641,7 +641,7 @@ def defectsAt (m : Sim) (h : Handle) (op : Op) (r : Result) : List Defect :=
        | some q =>
          (if s.write.any (fun w => match nf (pathDir w) with | some d => isPrefixOf q d | none => false)
           then [.removeAboveWrite] else []) ++
-         (if q.length ≥ 2 && (!has s.remote (join q.dropLast) || wiped s q.dropLast) then [.removeBufferDir] else [])
+         (if q.length ≥ 2 && (!isTrue (Root.isDir s.remote (join q.dropLast)) || wiped s q.dropLast) then [.removeBufferDir] else [])
        | none => [])
      else [])
   | .removeAll raw =>
@@ -654,7 +654,7 @@ def defectsAt (m : Sim) (h : Handle) (op : Op) (r : Result) : List Defect :=
        | some q =>
          (if s.write.any (fun w => match nf (pathDir w) with | some d => isPrefixOf q d | none => false)
           then [.removeAboveWrite] else []) ++
-         (if q.length ≥ 2 && (!has s.remote (join q.dropLast) || wiped s q.dropLast) then [.removeBufferDir] else [])
+         (if q.length ≥ 2 && (!isTrue (Root.isDir s.remote (join q.dropLast)) || wiped s q.dropLast) then [.removeBufferDir] else [])
        | none => [])
      else []))
   | .writeFile raw _ =>
@@ -728,8 +728,9 @@ def Handle.ok : Handle → Bool
   | .cache => true
   | .sub base => base.getLast? == some slash && (nf base).isSome
 
-/-- the calls of the class of `commit_equiv_partial`: WriteFile / Writer / MkdirAll through an ok handle; a
-`WriteFile` path, as the cache receives it, must end in a real name (the negation of KF-C06-3) -/
+/-- the calls of the class of `commit_equiv_partial`: WriteFile / Writer / MkdirAll / CopyFile through an ok handle
+(a CopyFile that succeeds directly has a file source and an absent destination); a `WriteFile` path, as the cache
+receives it, must end in a real name (the negation of KF-C06-3) -/
 def writeClass : Handle × Op → Bool
   | (h, .writeFile raw _) =>
     h.ok && (match cacheOp h (.writeFile raw []) with
@@ -737,6 +738,7 @@ def writeClass : Handle × Op → Bool
       | _ => false)
   | (h, .writer _ _) => h.ok
   | (h, .mkdirAll _) => h.ok
+  | (h, .copyFile _ _) => h.ok
   | _ => false
 
 /-- … extended for `ryw_partial`: also Remove / RemoveAll -/
